@@ -52,6 +52,9 @@ CHECKS = {
     "C13": dict(ready=True, category="exploration", technique="runtime monitoring: reference-model monitor - generated instance models printed in the three grammars, parsed by the real readers and compared field by field; own route simulation of constructive solves and constraint probes against the file's numbers; writer/reader round trips",
         text="Per case one geometry yields Solomon, Li&Lim and TSPLIB models (duplicates, depot not node 1, float-formatted coordinates, varying whitespace/CRLF) parsed rounded and exact through three API paths; ids, locations, demand kind/sign/value, windows, service times, fleet, capacity, shift window and all pairwise distances are compared with an integer-arithmetic oracle; planted capacity- and window-tight routes are probed (feasible stop accepted, stop breaking exactly one limit rejected) and 12 constructive methods are replayed against the file; complete solutions survive write -> read_init_solution.",
         note="Inputs inside the bundled grammar only; TSPLIB job id = node - 1; travel time = distance.", design_ref="DESIGN.md §3 C13"),
+    "C10": dict(ready=True, category="exploration", technique="runtime monitoring: reference-model monitor - an oracle re-implementing the documented validation rules three-valued (violated / satisfied / unspecified) from the documentation text, compared with the real reader on valid documents + one recorded mutation each, under a panic monitor",
+        text="Valid generated documents (G1 + enrichments: every job kind, relations, timestamped / profile-less matrices, coordinates) must be accepted; then one mutation out of 549 classes over 72 field classes is applied (per rule breakers and near-misses, per field a hostile value of the right JSON type) and the outcome is judged: panic, accepted although a documented rule is clearly broken, rejected with a code whose rule is satisfied or with an undocumented code although no rule is broken. Evidence lists per rule violating/satisfying documents and per field class the outcomes.",
+        note="Only read_pragmatic is observed; boundaries the documentation leaves open are unspecified and never decide; completeness of the reported code list is tabulated, not judged.", design_ref="DESIGN.md §3 C10"),
     "C03": dict(ready=True, category="exploration", technique="runtime monitoring: replay oracle recomputing schedule/load/distance/statistics/cost from routing data and visiting order, compared with every reported number",
         text="O1 replays each tour of each recorded solution from (visiting order, first departure): stop arrival/departure within the one-unit output rounding, per-stop load and cumulative distance exactly, tour and overall statistics, cost = fixed + distance*cd + duration*ct, and that the reported place tag belongs to a place explaining the reported interval.",
         note="Integral matrices/durations; fractional profile scale widens the per-leg split tolerance; tours with transit stops/commute only per-stop consistency (not generated).", design_ref="DESIGN.md §3 C03"),
